@@ -243,9 +243,11 @@ Proof.
 Qed.
 
 Lemma check_declaration_node_t_eq c l role s :
-  TFs s -> check_declaration_node_t c l role s = check_declaration_node c l role s.
+  TFs s -> fst c <> KTree -> check_declaration_node_t c l role s = check_declaration_node c l role s.
 Proof.
-  intros HT. unfold check_declaration_node_t, check_declaration_node.
+  intros HT Hck. unfold check_declaration_node_t, check_declaration_node.
+  assert (Hc : kind_eqb (fst c) KTree = false).
+  { destruct (kind_eqb (fst c) KTree) eqn:E; [apply kind_eqb_eq in E; contradiction | reflexivity]. }
   destruct (existing_claim l s) as [[[ro cr]|]|t|t] eqn:E; try reflexivity. cbn [bind].
   destruct ((ro =? role) && key_eqb cr c); [reflexivity|].
   assert (Hcr : kind_eqb (fst cr) KTree = false).
@@ -255,7 +257,7 @@ Proof.
     destruct (ncre n) as [c0|] eqn:Ec; [|discriminate]. destruct (role_of (fstt f)); [|discriminate].
     inversion E; subst. apply findn_In in En. destruct En as [Hin _].
     destruct (HT n Hin) as [_ H2]. specialize (H2 cr Ec). destruct (fst cr); try reflexivity. congruence. }
-  rewrite Hcr. reflexivity.
+  rewrite Hc, Hcr. reflexivity.
 Qed.
 
 Lemma foldM_eq_inv {A S} (f g : S -> A -> res S) (I : S -> Prop) l :
@@ -295,7 +297,9 @@ Lemma declare_static_files_t_eq c paths s :
   TFs s -> declare_static_files_t c paths s = declare_static_files c paths s.
 Proof.
   intros HT. unfold declare_static_files_t, declare_static_files.
-  destruct (negb (is_some (find_node c s))); [reflexivity|].
+  destruct (negb (is_some (find_node c s))) eqn:Ec; [reflexivity|].
+  assert (Hck : fst c <> KTree).
+  { apply (node_key_not_tree c s HT). apply is_some_true. apply negb_false_iff in Ec. exact Ec. }
   assert (Htodo : forall acc,
             foldM (fun acc l => do d <- static_declarer c l s; do isnew <- check_declaration_node_t d l 61 s;
                                 Ok (if isnew : bool then acc ++ [(d, l)] else acc)) paths (map (fun l => (c, l)) acc) =
@@ -303,7 +307,7 @@ Proof.
                                       Ok (if isnew : bool then acc ++ [l] else acc)) paths acc with
             | Ok todo => Ok (map (fun l => (c, l)) todo) | Usage t => Usage t | Internal t => Internal t end).
   { induction paths as [|p paths IH]; intros acc; cbn [foldM]; [reflexivity|].
-    rewrite static_declarer_eq; [|exact HT]. cbn [bind]. rewrite check_declaration_node_t_eq; [|exact HT].
+    rewrite static_declarer_eq; [|exact HT]. cbn [bind]. rewrite check_declaration_node_t_eq; [|exact HT|exact Hck].
     destruct (check_declaration_node c p 61 s) as [[]|t|t]; cbn [bind]; try reflexivity.
     - rewrite <- IH. rewrite map_app. reflexivity.
     - apply IH. }
